@@ -102,6 +102,9 @@ Section Term.
     - destruct (st_mode s); try discriminate. inversion H; subst s'; cbn in Hu.
       apply add_many_urls_from in Hu. destruct Hu as [Hu|Hu]; [auto|].
       rewrite map_map in Hu. cbn in Hu. rewrite map_id in Hu. auto.
+    - destruct (st_mode s); try discriminate. destruct ((0 <? n) && (st_batch s + n <=? length starts))%nat eqn:G; [|discriminate]. inversion H; subst s'; cbn in Hu.
+      apply add_many_urls_from in Hu. destruct Hu as [Hu|Hu]; [auto|].
+      rewrite map_map in Hu. cbn in Hu. rewrite map_id in Hu. apply batch_incl in Hu. auto.
   Qed.
 
   Lemma reach_in_U s : reach s -> in_U s.
@@ -117,8 +120,8 @@ Section Term.
 
   Definition mu (s : state) : nat :=
     match st_mode s with
-    | Down => 2 + W * (room s + cnt Todo (st_tbl s) + cnt InProgress (st_tbl s))
-    | Starting => 1 + W * (room s + cnt Todo (st_tbl s))
+    | Down => 2 + length starts + W * (room s + cnt Todo (st_tbl s) + cnt InProgress (st_tbl s))
+    | Starting => 1 + (length starts - st_batch s) + W * (room s + cnt Todo (st_tbl s))
     | Running => W * (room s + cnt Todo (st_tbl s)) + items_w (st_items s)
     end%nat.
 
@@ -202,7 +205,13 @@ Section Term.
       destruct (st_mode s) eqn:M; try discriminate. inversion H; subst s'; clear H.
       unfold mu, room in *. cbn [st_mode st_tbl st_items] in *. rewrite M, items_w_nil.
       destruct (add_many_counts (map start_info starts) (st_tbl s)) as [C1 C2]. rewrite C1, C2 in *.
-      match goal with |- (W * ?x + 0 < 1 + W * ?y)%nat => assert (Eq : x = y) by lia; rewrite Eq; lia end.
+      match goal with |- (W * ?x + 0 < 1 + _ + W * ?y)%nat => assert (Eq : x = y) by lia; rewrite Eq; lia end.
+    - (* one batch of the start URLs *)
+      destruct (st_mode s) eqn:M; try discriminate. destruct ((0 <? n) && (st_batch s + n <=? length starts))%nat eqn:G; [|discriminate]. inversion H; subst s'; clear H.
+      apply andb_prop in G. destruct G as [G1 G2]. apply Nat.ltb_lt in G1. apply Nat.leb_le in G2.
+      unfold mu, room in *. cbn [st_mode st_tbl st_items st_batch] in *. rewrite M.
+      destruct (add_many_counts (map start_info (firstn n (skipn (st_batch s) starts))) (st_tbl s)) as [C1 C2]. rewrite C1, C2 in *.
+      match goal with |- (1 + ?a + W * ?x < 1 + ?b + W * ?y)%nat => assert (Eq : x = y) by lia; rewrite Eq; lia end.
   Qed.
 
   (* executions of n crash-free steps *)
